@@ -160,7 +160,7 @@ def run(tier, seed, replay=None):
             run_case(run, drv, files, c["pl"], c["single"], "replay")
             settle_model(run, drv)
         return run.finish()
-    n = 60 if tier == "quick" else 600
+    n = 90 if tier == "quick" else 600
     for _ in range(n):
         files, pl, single = cr.make_case(run.rng, tier)
         run_case(run, drv, files, pl, single, "random")
